@@ -11,3 +11,7 @@ reg("C17", "exploration",
     "Round-trip oracle load -> str -> load -> str over the C03 corpus restricted to accepted texts: complete for all single lines of up to 4/5 tokens (bare and nested) and all texts of up to 3/4 lines over 26 line shapes chosen to contain '$$', grammar characters in values, empty values, repeated keys, mixed case, trailing-slash headers and imports; Hypothesis sampling beyond.",
     "Trusted: structural equality as read through the public dict/attribute interface of schemaless.Section. Texts the loader refuses are outside the quantifier.",
     "exhaustive enumeration + Hypothesis texts, round-trip oracle")
+reg("C09", "exploration",
+    "Differential check of all 21 string-valued stock datatypes (plus existing-*/locale on a fixed tree) against hand-written reference conversions: complete for every string up to 5..8 characters over per-type class-representative alphabets, all 19^4 dotted quads over boundary octets, all letter-case variants of the boolean words; Hypothesis grammar strings up to length 200 with all one-edit neighbours, structured IPv6/host:port forms and full-Unicode text beyond. Idempotence of key-normalising converters.",
+    "Trusted: zcv/refdt.py (written from docs/standard-datatypes.rst; no regular expressions; IPv6 validity cross-checked between a hand-written RFC 4291 recogniser, ipaddress and inet_pton -- disagreements are not compared). float() of the language is the float reference. 'Every length' is bounded enumeration + long generated strings, not a language-equivalence proof.",
+    "exhaustive enumeration + Hypothesis grammar strings and one-edit neighbours vs. reference conversions (differential oracle)")
